@@ -25,7 +25,7 @@ RULE = ('(a) every registered definition x fillings x 4 modes (data through '
         'every context of the host chain before = after (also when the '
         'evaluation raises), mutating every container of the result leaves '
         'the data unchanged, no result container is identical to a host '
-        'container; (b) state machine: statements from a pool of 35 x generated documents '
+        'container; (b) state machine: statements from a pool of 41 x generated documents '
         'evaluated in generated order in fresh children of one shared '
         'parent (a library context of the history\'s own); every outcome '
         'is also compared with the statement parsed anew and evaluated '
@@ -123,6 +123,20 @@ def make_host_chain(lib):
     host['$hostSet'] = {1, 2}
     host.register_function(host_function, name='hostFn')
     host.register_function(host_scratch, name='hostScratch')
+    # helpers the host defined in yaql itself: def() hands back the context
+    # that holds the function; it is part of the prepared chain and lives as
+    # long as the host does
+    try:
+        eng = common.engine()
+        prepared = eng('def(total, $1 + coalesce($2, 0))').evaluate(
+            context=host)
+        prepared = eng('def(scale, $1 * coalesce($factor, 1))').evaluate(
+            context=prepared)
+        prepared['$twice'] = eng('lambda($ * 2 + coalesce($2, 0))').evaluate(
+            context=common.std_context(delegates=True))
+        host = prepared
+    except Exception:   # noqa
+        pass
     return host, host.create_child_context()
 
 
@@ -535,6 +549,9 @@ POOL = [
     '$.items.groupBy($ mod 2, $, [$[0], $[1].sum()])',
     '$.items.groupBy($ mod 2, $, $.sum())',
     '$.items.groupBy($ mod 2, $ * 2, $.len())',
+    # helpers defined in yaql, called with different numbers of arguments
+    'total(1)', 'total(1, 10)', 'total($.items.len())', 'scale(2)',
+    'scale(2, factor => 5)', '[total(2), total(2, 3), total(2)]',
     # host extension with a scratch variable; $scratch is unknown outside
     'hostScratch(4)', '[hostScratch($.items.len()), $scratch]', '$scratch',
 ]
